@@ -25,7 +25,7 @@ from lib.vlib import Inconclusive, read_ndjson, write_ndjson
 
 SUITES = ["ECDH256", "ECDH384", "DHKEXid14", "DHKEXid15", "ASYMKEX2048", "ASYMKEX3072"]
 CIPHERS = ["A128GCM", "A192GCM", "A256GCM", "COSEAES128CBC", "COSEAES128CTR", "COSEAES256CBC", "COSEAES256CTR"]
-CLASSES = ["flip_ct", "flip_iv", "flip_alg", "flip_tag", "strip_mac0", "strip_mac0+flip_ct", "strip_mac0+flip_iv",
+CLASSES = ["short_tag+flip_ct", "short_tag+flip_iv", "flip_ct", "flip_iv", "flip_alg", "flip_tag", "strip_mac0", "strip_mac0+flip_ct", "strip_mac0+flip_iv",
            "strip_mac0+iv_len", "strip_mac0+empty_ct", "strip_mac0+truncate", "wrap_mac0", "retag", "drop_iv", "iv_len",
            "empty_ct", "truncate", "substitute", "plaintext", "bit_any"]
 
@@ -221,6 +221,11 @@ def run(ctx):
         "acceptance of a rewritten object with IDENTICAL plaintext is allowed by the property text and reported as lenient, not as a violation",
         "replay/reordering of intact objects within one session is outside C05 (no class for it)",
     ]
+    # "a rejected message fails the run": after a rejected tunnel message the session must be gone
+    # (FinalKills of Server.tla), decided by traces of the random server driver with undecryptable,
+    # foreign and plaintext 66..70 injected into live sessions
+    from checks import server_family
+    server_family.run(ctx, "C05", None, light=True)
     return "model_checking"
 
 
